@@ -22,6 +22,9 @@ macro_rules! dispatch {
             "C07" => $f(&props::c07::prop(), $($arg),*),
             "C08" => $f(&props::c08::prop(), $($arg),*),
             "C09" => $f(&props::c09::prop(), $($arg),*),
+            "C13" => $f(&props::c13::prop(), $($arg),*),
+            "C17" => $f(&props::c17::C17, $($arg),*),
+            "C19" => $f(&props::c19::C19Prop, $($arg),*),
             other => {
                 eprintln!("unknown property {}", other);
                 2
